@@ -124,7 +124,7 @@ PROPS = {
     "C24": small("store", "as C23, with three name universes chosen by seed: (half) names that are prefixes of each other or contain '_' (a, ab, a_b, a_b_c / b, bc, b-c / n, n1, n10, n1x), (quarter) names containing '/', (quarter) names containing glob characters; no in-progress markers, many list queries with every filter combination; "
                  "after every operation GetDeployStatus of every (app, entry) in use and every ListWorkloads query are compared with the set of workloads created under exactly those names, and every workload name is parsed back; "
                  "non-trivial = at least one operation succeeded; distinct = distinct read-back hash",
-                 probes=["workload_added", "list_checked", "deploy_count_checked"]),
+                 probes=["workload_added", "list_checked", "deploy_count_checked", "status_stream_opened", "status_stream_event_checked"]),
     "C25": small("store", "as C23 restricted to 2 nodes and 3 workloads of one application so that reports, repeated reports, TTL changes, removals and time steps of 1-31 s meet; after every operation the visibility of every node and workload status on both backends is compared with a reference model (visible until TTL after the latest report, or removal; TTL 0 never expires; TTL>0 refused for a missing entity); "
                  "non-trivial = at least one operation succeeded; distinct = distinct read-back hash",
                  probes=["status_set", "same_status_reported_again", "same_status_other_ttl", "status_changed", "status_without_ttl", "node_status_expired", "workload_status_expired", "advance"]),
@@ -222,7 +222,7 @@ MANIFEST_TEXT = {
     "C16": {"text": "History check against a model of the log file: on every recovery the sequence of handler invocations must equal the uncommitted events in id order, each once (a prefix of it when the process dies inside the recovery); an event is gone exactly when it was handled successfully or declined; ids strictly increase over the whole history including restarts; the real file is compared with the model after every phase.", "note": "Trusted: bbolt's transaction atomicity; crash = death between two kv calls with the file copied at that instant. " + _NOTE_S},
     "C17": {"text": "Complete enumeration (exhaustive: true in the evidence when all 252 x 3 cases ran) of outcome vectors x cancellation points for utils.Txn and utils.PCR under the simulator: call log and return value are compared with the specification (then iff cond ok; rollback once iff a step failed, with the right flag; first failure returned; rollback context not reached by the caller's cancellation; PCR rolls back only on commit failure).", "note": _NOTE_S},
     "C23": {"text": "Differential history check: the same seeded operation sequence runs against the real etcd store over simulated etcd and the real Redis store over simulated Redis; every operation must succeed or fail on both, return the same result, and leave the same complete read-back; a create that fails must leave the read-back unchanged. Found and fixed five divergences (see known_findings.json); two remain recorded (Redis SetNodeStatus without entity check - pinned by an existing test; duplicate ids in GetWorkloads).", "note": _NOTE_S + " Sequential histories on a virtual clock, no injected faults: the property has no schedule in it; the simulator contributes the two in-bubble servers and time. miniredis stands in for Redis."},
-    "C24": {"text": "Model-based history check on both backends: list and deploy-count queries return exactly the workloads created under the queried application / entrypoint / node, names parse back. Holds for names that are prefixes of each other or contain '_'; names containing '/' (both backends) or glob characters (Redis) break isolation - recorded findings matched by the kind of names in play, so a violation among plain names is still reported.", "note": _NOTE_S + " The status stream part of the statement is covered through the same key prefixes only (ListWorkloads/GetDeployStatus); WorkloadStatusStream itself is not driven."},
+    "C24": {"text": "Model-based history check on both backends: list and deploy-count queries return exactly the workloads created under the queried application / entrypoint / node, names parse back. Holds for names that are prefixes of each other or contain '_'; names containing '/' (both backends) or glob characters (Redis) break isolation - recorded findings matched by the kind of names in play, so a violation among plain names is still reported.", "note": _NOTE_S + " The status stream is driven on the etcd store only (1-2 streams stay open during a history and every status report is checked against what they deliver); the Redis stream needs keyspace notifications, which the simulated Redis does not provide."},
     "C25": {"text": "Status reports with TTLs on the virtual clock against a reference model, on both backends: accepted only for existing entities (TTL>0), visible until TTL after the latest report or removal of the entity, repeated reports extend, TTL 0 stays. Found and fixed: node status outlived the node (both backends). Recorded: Redis accepts a node status for a missing node.", "note": _NOTE_S},
     "C18": {"text": "Contenders under seeded schedules on the etcd backend (real etcdlock + real concurrency.Mutex/Session + real lessor over simetcd) and on the Redis backend (real lock/redis + redislock + go-redis over miniredis in the bubble): never two holders with a live lock context, a try-lock on a held lock fails without virtual time passing, a waiter acquires after a release or fails at its wait timeout, everybody finishes.", "note": _NOTE_S + ""},
     "C19": {"text": "Lease revocation and client pauses past the TTL while another contender waits: the holder's lock context must be cancelled within one keep-alive interval (TTL/3, plus the etcd lessor's 0.5-1 s polling granularity) of the loss at the server, and a stale holder may coexist with the next holder no longer than that. On the Redis backend (TTL elapsing on the virtual clock) the lock context is never cancelled: recorded findings KF-C19-1..4.", "note": _NOTE_S},
